@@ -453,10 +453,8 @@ class QuarterSplineRing(SplineRound):
         return [*super().parts, self._center]
 
     def scale(self, ratio: float, origin: Optional[PointType] = None):
-        """Reimplementation of scale to include side_1 and side_2."""
-
-        self.side_1 = ratio * self.side_1
-        self.side_2 = ratio * self.side_2
+        """Reimplementation of scale to include width_1 and width_2
+        (side_1 and side_2 are scaled by SplineRound.scale)."""
 
         self.width_1 = ratio * self.width_1
         self.width_2 = ratio * self.width_2
